@@ -1189,7 +1189,9 @@ class Engine:
         fi = f.info
         c = self.modular.get(fi.key)
         if c is not None and not getattr(run, "_verifying", None) == fi.key:
-            return c.apply(self, run, fi, args, kwargs)
+            r = c.apply(self, run, fi, args, kwargs)
+            if r is not NotImplemented:
+                return r
         # decorators that are semantically relevant
         if f.decorated and "enable_scalar_args" in fi.decorators:
             wrapper = source.get_function("droplets.tools.misc:enable_scalar_args.<wrapper>")
